@@ -325,9 +325,239 @@ def alias_self_chains(tree):
     return n
 
 
+def rename_private_methods(tree, _all=None):
+    """every private method / property (single leading underscore) of the package gets another name, callers included."""
+    n = 0
+    names = rename_private_methods.names
+    for x in ast.walk(tree):
+        if isinstance(x, (ast.FunctionDef, ast.AsyncFunctionDef)) and x.name in names:
+            x.name = x.name + '_rn'
+            n += 1
+        elif isinstance(x, ast.Attribute) and x.attr in names:
+            x.attr = x.attr + '_rn'
+        elif isinstance(x, ast.Name) and x.id in names:
+            x.id = x.id + '_rn'
+    return n
+
+
+def _collect_private(root='/repo/supvisors'):
+    names, used_in_tests = set(), set()
+    for p in pathlib.Path(root).rglob('*.py'):
+        if 'tests' in p.parts or 'test' in p.parts:
+            continue
+        t = ast.parse(p.read_text())
+        for c in ast.walk(t):
+            if isinstance(c, ast.ClassDef):
+                for b in c.body:
+                    if isinstance(b, ast.FunctionDef) and b.name.startswith('_') and not b.name.startswith('__'):
+                        names.add(b.name)
+    # class-level attributes with the same name (e.g. _Transitions) are not methods: only lower-case names
+    return {n for n in names if n == n.lower()}
+
+
+rename_private_methods.names = set()
+
+
+def rename_params(tree):
+    """positional parameters (other than self/cls) of private methods get another name (callers pass them positionally
+    or the method is skipped)."""
+    n = 0
+    kw_used = {k.arg for x in ast.walk(tree) if isinstance(x, ast.Call) for k in x.keywords if k.arg}
+    for fn in functions(tree):
+        if not fn.name.startswith('_') or fn.name.startswith('__'):
+            continue
+        params = [a for a in fn.args.args if a.arg not in ('self', 'cls')]
+        if not params or any(a.arg in kw_used for a in params) or fn.args.kwonlyargs:
+            continue
+        if any(isinstance(x, (ast.Global, ast.Nonlocal)) for x in ast.walk(fn)):
+            continue
+        ren = {a.arg: a.arg + '_p' for a in params}
+        for x in ast.walk(fn):
+            if isinstance(x, ast.Name) and x.id in ren:
+                x.id = ren[x.id]
+            elif isinstance(x, ast.arg) and x.arg in ren and x in fn.args.args:
+                x.arg = ren[x.arg]
+        n += 1
+    return n
+
+
+def ifexp_to_if(tree):
+    n = [0]
+
+    def do_list(stmts):
+        out = []
+        for st in stmts:
+            if not isinstance(st, (ast.FunctionDef, ast.ClassDef, ast.AsyncFunctionDef)):
+                for f in ('body', 'orelse', 'finalbody'):
+                    v = getattr(st, f, None)
+                    if isinstance(v, list) and v and isinstance(v[0], ast.stmt):
+                        setattr(st, f, do_list(v))
+                for h in getattr(st, 'handlers', []) or []:
+                    h.body = do_list(h.body)
+            if isinstance(st, ast.Return) and isinstance(st.value, ast.IfExp):
+                e = st.value
+                out.append(ast.If(test=e.test, body=[ast.Return(value=e.body)], orelse=[]))
+                out.append(ast.Return(value=e.orelse))
+                n[0] += 1
+                continue
+            if isinstance(st, ast.Assign) and isinstance(st.value, ast.IfExp) and len(st.targets) == 1 and \
+                    isinstance(st.targets[0], (ast.Name, ast.Attribute)):
+                e = st.value
+                out.append(ast.If(test=e.test, body=[ast.Assign(targets=st.targets, value=e.body, lineno=st.lineno)],
+                                  orelse=[ast.Assign(targets=copy.deepcopy(st.targets), value=e.orelse, lineno=st.lineno)]))
+                n[0] += 1
+                continue
+            out.append(st)
+        return out
+    for fn in functions(tree):
+        fn.body = do_list(fn.body)
+    return n[0]
+
+
+def if_to_ifexp(tree):
+    """`if c: return A` followed by `return B` -> `return A if c else B`."""
+    n = [0]
+
+    def do_list(stmts):
+        out = []
+        i = 0
+        while i < len(stmts):
+            st = stmts[i]
+            if not isinstance(st, (ast.FunctionDef, ast.ClassDef, ast.AsyncFunctionDef)):
+                for f in ('body', 'orelse', 'finalbody'):
+                    v = getattr(st, f, None)
+                    if isinstance(v, list) and v and isinstance(v[0], ast.stmt):
+                        setattr(st, f, do_list(v))
+                for h in getattr(st, 'handlers', []) or []:
+                    h.body = do_list(h.body)
+            nxt = stmts[i + 1] if i + 1 < len(stmts) else None
+            if isinstance(st, ast.If) and not st.orelse and len(st.body) == 1 and isinstance(st.body[0], ast.Return) and \
+                    st.body[0].value is not None and isinstance(nxt, ast.Return) and nxt.value is not None:
+                out.append(ast.Return(value=ast.IfExp(test=st.test, body=st.body[0].value, orelse=nxt.value)))
+                n[0] += 1
+                i += 2
+                continue
+            out.append(st)
+            i += 1
+        return out
+    for fn in functions(tree):
+        fn.body = do_list(fn.body)
+    return n[0]
+
+
+def else_after_exit(tree):
+    """`if c: EXIT` followed by REST -> `if c: EXIT else: REST`."""
+    n = [0]
+
+    def exits(b):
+        return bool(b) and isinstance(b[-1], (ast.Return, ast.Raise, ast.Continue, ast.Break))
+
+    def do_list(stmts):
+        for st in stmts:
+            if not isinstance(st, (ast.FunctionDef, ast.ClassDef, ast.AsyncFunctionDef)):
+                for f in ('body', 'orelse', 'finalbody'):
+                    v = getattr(st, f, None)
+                    if isinstance(v, list) and v and isinstance(v[0], ast.stmt):
+                        setattr(st, f, do_list(v))
+                for h in getattr(st, 'handlers', []) or []:
+                    h.body = do_list(h.body)
+        for i, st in enumerate(stmts):
+            if isinstance(st, ast.If) and not st.orelse and exits(st.body) and i + 1 < len(stmts):
+                st.orelse = stmts[i + 1:]
+                n[0] += 1
+                return stmts[:i + 1]
+        return stmts
+    for fn in functions(tree):
+        fn.body = do_list(fn.body)
+    return n[0]
+
+
+def extract_conditions(tree):
+    """the test of every `if` of a method (not elif) that only reads self-rooted chains and locals becomes a new private
+    predicate method taking the locals it reads."""
+    n = [0]
+    for c in [x for x in tree.body if isinstance(x, ast.ClassDef)]:
+        new_methods = []
+        for fn in [b for b in c.body if isinstance(b, ast.FunctionDef)]:
+            if not fn.args.args or fn.args.args[0].arg != 'self' or any(isinstance(d, ast.Name) and d.id in ('staticmethod', 'classmethod', 'property') or isinstance(d, ast.Attribute) for d in fn.decorator_list):
+                continue
+            if any(isinstance(x, (ast.Lambda, ast.FunctionDef, ast.Yield, ast.YieldFrom)) for x in own_nodes(fn)):
+                continue
+            local_names = {x.id for x in ast.walk(fn) if isinstance(x, ast.Name) and isinstance(x.ctx, ast.Store)} | \
+                {a.arg for a in fn.args.args + fn.args.kwonlyargs}
+
+            def do_list(stmts, is_elif=False):
+                for st in stmts:
+                    if isinstance(st, (ast.FunctionDef, ast.ClassDef)):
+                        continue
+                    for f in ('body', 'orelse', 'finalbody'):
+                        v = getattr(st, f, None)
+                        if isinstance(v, list) and v and isinstance(v[0], ast.stmt):
+                            do_list(v, f == 'orelse' and isinstance(st, ast.If) and len(v) == 1 and isinstance(v[0], ast.If))
+                    for h in getattr(st, 'handlers', []) or []:
+                        do_list(h.body)
+                    if isinstance(st, ast.If) and isinstance(st.test, (ast.Compare, ast.BoolOp, ast.Call, ast.UnaryOp)) and \
+                            not any(isinstance(x, (ast.NamedExpr, ast.Await, ast.ListComp, ast.GeneratorExp, ast.SetComp, ast.DictComp)) for x in ast.walk(st.test)):
+                        free = sorted({x.id for x in ast.walk(st.test) if isinstance(x, ast.Name) and x.id in local_names and x.id != 'self'})
+                        n[0] += 1
+                        nm = '_pred_%s_%d' % (fn.name.strip('_'), n[0])
+                        new_methods.append(ast.FunctionDef(
+                            name=nm, args=ast.arguments(posonlyargs=[], args=[ast.arg(arg='self')] + [ast.arg(arg=x) for x in free],
+                                                        kwonlyargs=[], kw_defaults=[], defaults=[]),
+                            body=[ast.Return(value=st.test)], decorator_list=[], lineno=fn.lineno))
+                        st.test = ast.Call(func=ast.Attribute(value=ast.Name(id='self', ctx=ast.Load()), attr=nm, ctx=ast.Load()),
+                                           args=[ast.Name(id=x, ctx=ast.Load()) for x in free], keywords=[])
+            do_list(fn.body)
+        c.body.extend(new_methods)
+    return n[0]
+
+
+def extract_blocks(tree):
+    """the body of the last top-level `if` (no else) of a method, when it neither binds a local read afterwards nor leaves
+    the method, moves to a new private method taking the locals it reads."""
+    n = [0]
+    for c in [x for x in tree.body if isinstance(x, ast.ClassDef)]:
+        new_methods = []
+        for fn in [b for b in c.body if isinstance(b, ast.FunctionDef)]:
+            if not fn.args.args or fn.args.args[0].arg != 'self' or fn.decorator_list:
+                continue
+            cands = [st for st in fn.body if isinstance(st, ast.If) and not st.orelse and len(st.body) >= 2]
+            if not cands:
+                continue
+            st = cands[-1]
+            if any(isinstance(x, (ast.Return, ast.Break, ast.Continue, ast.Yield, ast.YieldFrom, ast.Lambda, ast.FunctionDef,
+                                  ast.Global, ast.Nonlocal)) for b in st.body for x in ast.walk(b)):
+                continue
+            stored = {x.id for b in st.body for x in ast.walk(b) if isinstance(x, ast.Name) and isinstance(x.ctx, ast.Store)}
+            after = fn.body[fn.body.index(st) + 1:]
+            if stored & {x.id for a in after for x in ast.walk(a) if isinstance(x, ast.Name)}:
+                continue
+            local_names = {x.id for x in ast.walk(fn) if isinstance(x, ast.Name) and isinstance(x.ctx, ast.Store)} | \
+                {a.arg for a in fn.args.args + fn.args.kwonlyargs}
+            # locals read in the block before being bound there: parameters of the helper
+            free = sorted({x.id for b in st.body for x in ast.walk(b) if isinstance(x, ast.Name) and isinstance(x.ctx, ast.Load)
+                           and x.id in local_names and x.id != 'self'} - set())
+            if stored & set(free):
+                # a local both read and bound in the block: keep it simple, skip
+                continue
+            n[0] += 1
+            nm = '_block_%s_%d' % (fn.name.strip('_'), n[0])
+            new_methods.append(ast.FunctionDef(
+                name=nm, args=ast.arguments(posonlyargs=[], args=[ast.arg(arg='self')] + [ast.arg(arg=x) for x in free],
+                                            kwonlyargs=[], kw_defaults=[], defaults=[]),
+                body=st.body, decorator_list=[], lineno=fn.lineno))
+            st.body = [ast.Expr(value=ast.Call(func=ast.Attribute(value=ast.Name(id='self', ctx=ast.Load()), attr=nm, ctx=ast.Load()),
+                                               args=[ast.Name(id=x, ctx=ast.Load()) for x in free], keywords=[]))]
+        c.body.extend(new_methods)
+    return n[0]
+
+
 KINDS = {'rename-locals': rename_locals, 'invert-if-else': invert_if_else, 'hoist-conditions': hoist_conditions,
          'comp-to-loop': comp_to_loop, 'split-and': split_and, 'swap-eq': swap_eq, 'in-to-or': in_to_or,
-         'len-bool': len_bool, 'guard-clauses': guard_clauses, 'alias-self-chains': alias_self_chains}
+         'len-bool': len_bool, 'guard-clauses': guard_clauses, 'alias-self-chains': alias_self_chains,
+         'rename-private-methods': rename_private_methods, 'rename-params': rename_params, 'ifexp-to-if': ifexp_to_if,
+         'if-to-ifexp': if_to_ifexp, 'else-after-exit': else_after_exit, 'extract-conditions': extract_conditions,
+         'extract-blocks': extract_blocks}
 
 
 def build(kind, dest):
@@ -336,11 +566,18 @@ def build(kind, dest):
         os.makedirs(dest + '/docs', exist_ok=True)
         shutil.copy('/repo/docs/configuration.rst', dest + '/docs/configuration.rst')
     total = 0
+    kinds = kind[6:].split(',') if kind.startswith('combo:') else [kind]
+    if 'rename-private-methods' in kinds:
+        rename_private_methods.names = _collect_private()
     for p in sorted(pathlib.Path(dest, 'supvisors').rglob('*.py')):
         if 'tests' in p.parts or 'test' in p.parts:
             continue
         tree = ast.parse(p.read_text())
-        k = KINDS[kind](tree)
+        k = 0
+        for kd in kinds:
+            k += KINDS[kd](tree)
+            ast.fix_missing_locations(tree)
+            tree = ast.parse(ast.unparse(tree))
         if k:
             ast.fix_missing_locations(tree)
             src = ast.unparse(tree) + '\n'
